@@ -34,6 +34,22 @@ namespace R
       int rule, pos;
    };
 
+   // lexical context threaded through the evaluation
+   struct Ctx
+   {
+      int am = 1;      // apply mode: 1 action, 0 nothing
+      int fam = 0;     // action family in effect
+      int state = -1;  // innermost live LogState id
+      int ctl = 1;     // control in effect (1 mon/mon1, 2 mon2)
+      Ctx with_am( int v ) const
+      {
+         Ctx c = *this;
+         c.am = v;
+         return c;
+      }
+   };
+   constexpr int WHO_LIMIT_DEPTH = -11, WHO_LIMIT_BYTES = -12, WHO_CHECK_BYTES = -13;
+
    struct TEv
    {
       uint8_t exit;  // 0 enter, 1 exit
@@ -91,6 +107,11 @@ namespace R
       std::vector< TEv > trail;
       std::vector< std::array< int, 3 > > stack;  // (rule, pos, end) of active evaluations
       long n_backtrack_after_consume = 0;
+      int depth = 0;
+      int st_next = 0;
+      std::vector< T::StEv > st_log;
+      std::vector< T::SwAct > sw_acts;
+      std::vector< std::array< int, 3 > > ctl_log;
 
       void reset( long f )
       {
@@ -99,6 +120,11 @@ namespace R
          trail.clear();
          stack.clear();
          n_backtrack_after_consume = 0;
+         depth = 0;
+         st_next = 0;
+         st_log.clear();
+         sw_acts.clear();
+         ctl_log.clear();
       }
       void touch( int pos )
       {
@@ -348,44 +374,89 @@ namespace R
          return -1;
       }
 
-      Res ev( int I, int pos, int end, int am )
+      Res ev( int I, int pos, int end, Ctx am )
       {
          if( --rfuel < 0 ) throw Diverge{ 2, I, pos };
          for( auto& s : stack )
             if( s[ 0 ] == I && s[ 1 ] == pos && s[ 2 ] == end ) throw Diverge{ 0, I, pos };
+         const Attach at = ( am.fam >= 8 ) ? attach_of( am.fam, I ) : Attach{ AK_NONE, 0 };
+         // ---- attachments that act before the rule is attempted (Action< Rule >::match)
+         if( at.kind == AK_LIMIT_DEPTH && depth + 1 > at.n ) return { RAISE, 0, WHO_LIMIT_DEPTH, pos, pos, -1 };
+         int end2 = end;
+         Ctx in = am;  // context for the rule itself and everything below it
+         int new_state = -1;
+         bool state_default_ctor = false;
+         switch( at.kind ) {
+            case AK_LIMIT_BYTES: end2 = std::min( end, pos + at.n ); break;
+            case AK_CHANGE_STATE:
+            case AK_CHANGE_ACTION_AND_STATE: new_state = st_next++; break;
+            case AK_CHANGE_STATES:
+            case AK_CHANGE_ACTION_AND_STATES:
+               new_state = st_next++;
+               state_default_ctor = true;
+               break;
+            case AK_ENABLE_ACTION: in.am = 1; break;
+            case AK_DISABLE_ACTION: in.am = 0; break;
+            case AK_CHANGE_CONTROL: in.ctl = 2; break;
+            default: break;
+         }
+         if( new_state >= 0 ) {
+            st_log.push_back( { 0, new_state, state_default_ctor ? -1 : pos, state_default_ctor ? -2 : am.state } );
+            in.state = new_state;
+         }
+         if( at.kind == AK_CHANGE_ACTION || at.kind == AK_CHANGE_ACTION_AND_STATE || at.kind == AK_CHANGE_ACTION_AND_STATES ) in.fam = FAM_ALT;
+         if( at.kind == AK_LIMIT_DEPTH ) ++depth;
          stack.push_back( { I, pos, end } );
          const size_t mark = trail.size();
-         trail.push_back( { 0, int16_t( I ), pos, uint8_t( am ) } );
+         const size_t sw_mark = sw_acts.size();
+         trail.push_back( { 0, int16_t( I ), pos, uint8_t( in.am ) } );
+         ctl_log.push_back( { in.ctl, I, pos } );
          touch( pos );
          const Entry e = tab[ I ];
-         Res r = ev_op( e.op, e.a, e.b, e.c, I, pos, end, am );
+         Res r = ev_op( e.op, e.a, e.b, e.c, I, pos, end2, in );
          stack.pop_back();
+         if( at.kind == AK_LIMIT_DEPTH ) --depth;
          if( r.k == OK ) {
             touch( r.pos );
-            trail.push_back( { 1, int16_t( I ), r.pos, uint8_t( am ) } );
-            const int ak = am ? act_kind_of( act_family, I ) : 0;
-            if( ak != 0 ) {
-               const bool is0 = ( ak == 2 || ak == 4 );
-               const int d = act_decision( I, pos, is0 ? -2 : r.pos, ak >= 3 );
-               if( d == 1 ) r = fail();
-               if( d == 2 ) r = { AX, 0, I, pos, r.pos, -1 };
+            trail.push_back( { 1, int16_t( I ), r.pos, uint8_t( in.am ) } );
+            if( in.fam < 8 ) {
+               const int ak = in.am ? act_kind_of( in.fam, I ) : 0;
+               if( ak != 0 ) {
+                  const bool is0 = ( ak == 2 || ak == 4 );
+                  const int d = act_decision( I, pos, is0 ? -2 : r.pos, ak >= 3 );
+                  if( d == 1 ) r = fail();
+                  if( d == 2 ) r = { AX, 0, I, pos, r.pos, -1 };
+               }
             }
+            else if( in.am && attach_of( in.fam, I ).kind == AK_APPLY ) {
+               sw_acts.push_back( { I, in.fam, pos, r.pos, in.state } );
+            }
+         }
+         if( r.k == OK ) {
+            // ---- attachments that act after the rule matched
+            if( at.kind == AK_LIMIT_BYTES && r.pos == end2 && end2 != end ) r = { RAISE, 0, WHO_LIMIT_BYTES, r.pos, r.pos, -1 };
+            if( at.kind == AK_CHECK_BYTES && r.pos - pos > at.n ) r = { RAISE, 0, WHO_CHECK_BYTES, r.pos, r.pos, -1 };
+         }
+         if( new_state >= 0 ) {
+            if( r.k == OK && am.am ) st_log.push_back( { 1, new_state, r.pos, am.state } );
+            st_log.push_back( { 2, new_state, -1, -1 } );
          }
          if( r.k == FAIL ) {
             if( trail.size() != mark + 1 ) ++n_backtrack_after_consume;
             trail.resize( mark );
+            sw_acts.resize( sw_mark );
          }
          return r;
       }
 
-      Res ev_op( int op, int a, int b, int c, int self, int pos, int end, int am )
+      Res ev_op( int op, int a, int b, int c, int self, int pos, int end, Ctx am )
       {
          auto A = [ = ]( int q ) { return ev( a, q, end, am ); };
          auto B = [ = ]( int q ) { return ev( b, q, end, am ); };
          auto C = [ = ]( int q ) { return ev( c, q, end, am ); };
-         auto A0 = [ = ]( int q ) { return ev( a, q, end, 0 ); };
+         auto A0 = [ = ]( int q ) { return ev( a, q, end, am.with_am( 0 ) ); };
          auto AB = [ = ]( int q ) { return seq( A, B, q ); };
-         auto AB0 = [ = ]( int q ) { return seq( A0, [ = ]( int z ) { return ev( b, z, end, 0 ); }, q ); };
+         auto AB0 = [ = ]( int q ) { return seq( A0, [ = ]( int z ) { return ev( b, z, end, am.with_am( 0 ) ); }, q ); };
          auto BC = [ = ]( int q ) { return seq( B, C, q ); };
          auto ABC = [ = ]( int q ) { return seq( A, BC, q ); };
          auto any = [ = ]( int q ) { return q < end ? ok( q + 1 ) : fail(); };
@@ -554,7 +625,7 @@ namespace R
                   Res r = A( q );
                   if( r.k != OK ) return r;
                   const int e2 = r.pos;
-                  auto S_eof = [ = ]( int z ) { return seq( [ = ]( int y ) { return ev( b, y, e2, 0 ); }, [ = ]( int y ) { return y == e2 ? ok( y ) : fail(); }, z ); };
+                  auto S_eof = [ = ]( int z ) { return seq( [ = ]( int y ) { return ev( b, y, e2, am.with_am( 0 ) ); }, [ = ]( int y ) { return y == e2 ? ok( y ) : fail(); }, z ); };
                   Res s = not_at( S_eof, q );
                   if( s.k != OK ) return s;
                   return ok( e2 );
@@ -678,8 +749,18 @@ namespace R
                if( catches( op, r.k ) ) return { NESTED, 0, a, pos, pos, r.k };
                return r;
             }
-            case ENABLE: return ev( a, pos, end, 1 );
-            case DISABLE: return ev( a, pos, end, 0 );
+            case ENABLE: return ev( a, pos, end, am.with_am( 1 ) );
+            case STATE: {  // state< LogState, R >: new state for R; success( in, outer... ) iff R matched, whatever the apply mode
+               const int id = st_next++;
+               st_log.push_back( { 0, id, pos, am.state } );
+               Ctx in = am;
+               in.state = id;
+               Res r = ev( a, pos, end, in );
+               if( r.k == OK ) st_log.push_back( { 1, id, r.pos, am.state } );
+               st_log.push_back( { 2, id, -1, -1 } );
+               return r;
+            }
+            case DISABLE: return ev( a, pos, end, am.with_am( 0 ) );
          }
          fprintf( stderr, "FATAL: reference has no semantics for op %s\n", opinfo[ op ].name );
          abort();
